@@ -82,6 +82,72 @@ def _roots(expr) -> Set[str]:
     return {n.id[1:] for n in walk_shared(expr) if isinstance(n, ast.Name) and n.id.startswith(PARAM)}
 
 
+_PEEL_METHODS = {"ravel", "reshape", "flatten", "copy", "astype", "transpose", "squeeze", "view"}
+
+
+def _peel(node):
+    """Strip shape-only views: X.ravel()[1:].T -> X (names and exponents are unchanged by them)."""
+    for _ in range(8):
+        if isinstance(node, ast.Subscript) and not _is_align_call(node.value):
+            node = node.value
+        elif isinstance(node, ast.Attribute) and node.attr in ("T", "real", "imag"):
+            node = node.value
+        elif isinstance(node, ast.Call) and isinstance(node.func, ast.Attribute) and node.func.attr in _PEEL_METHODS:
+            node = node.func.value
+        else:
+            break
+    return node
+
+
+def _is_align_call(node):
+    if isinstance(node, ast.Call) and not is_S(node):
+        func = node.func
+        name = func.attr if isinstance(func, ast.Attribute) else getattr(func, "id", "")
+        return name in ("align_polynomials", "align_exponents", "align_indeterminants", "align_shape",
+                        "align_dtype", "broadcast_arrays")
+    return False
+
+
+def _names_base(node):
+    for _ in range(4):
+        if isinstance(node, ast.Attribute) and node.attr in ("names", "indeterminants"):
+            return node.value
+        if isinstance(node, ast.Call) and isinstance(node.func, ast.Name) and node.func.id in ("tuple", "list") and node.args:
+            node = node.args[0]
+        else:
+            return None
+    return None
+
+
+def _same_source(ctx, module, exp_base, names):
+    """True: names come from the polynomial the exponent rows come from (or from an operand / a sibling of
+    the alignment that produced it); False: exponent rows of an alignment result, names of a polynomial
+    outside that alignment; None: not decided."""
+    name_base = _names_base(names)
+    if name_base is None:
+        return None
+    xs, ys = _peel(exp_base), _peel(name_base)
+    if _txt(xs) == _txt(ys):
+        return True
+    # X = ALIGN(...)[i] (or an element of it)
+    inner = xs
+    while is_S(inner, "elem") or isinstance(inner, ast.Subscript):
+        inner = inner.args[0] if is_S(inner) else inner.value
+    if not _is_align_call(inner):
+        return None
+    yinner = ys
+    while is_S(yinner, "elem") or isinstance(yinner, ast.Subscript):
+        yinner = yinner.args[0] if is_S(yinner) else yinner.value
+    if _txt(yinner) == _txt(inner):
+        return True  # siblings of one alignment share names
+    ytext = _txt(ys)
+    for arg in inner.args:
+        arg = arg.value if isinstance(arg, ast.Starred) else arg
+        if _txt(_peel(arg)) == ytext:
+            return True  # an operand of that alignment (its names are a subset in the same index order)
+    return False
+
+
 def run_names(ctx) -> RuleResult:
     result = RuleResult(
         "R-NAMES",
@@ -136,6 +202,20 @@ def run_names(ctx) -> RuleResult:
                             ok = from_names or explicit or bool(_roots(names))
                         ident = f"{module.name}.{qual}: {cname.split('.')[-1]}({why} of {_txt(base)[:40]}) gets names"
                         result.ob(ident, ok, module.loc(step.orig), detail)
+                        if ok and why == "exponent rows":
+                            verdict = _same_source(ctx, module, base, names)
+                            if verdict is not None:
+                                result.ob(f"{module.name}.{qual}: exponent rows and names of "
+                                          f"{cname.split('.')[-1]}(...) come from the same (aligned) polynomial",
+                                          verdict, module.loc(step.orig), f"{_txt(base)[:60]} / {detail[:60]}")
+                                if not verdict:
+                                    result.add(Finding(
+                                        "R-NAMES", module, qual, call,
+                                        f"{cname.split('.')[-1]} takes its exponent rows from the alignment result "
+                                        f"'{_txt(base)[:70]}' but {detail[:90]}, a polynomial that is neither that result "
+                                        f"nor an operand of that alignment: the exponent matrix has one column per name of "
+                                        f"the union, the names tuple does not",
+                                        derivation=describe_path(path), construct="exponents/names of different polynomials"))
                         if not ok:
                             result.add(Finding(
                                 "R-NAMES", module, qual, call,
